@@ -335,6 +335,16 @@ def r2_summand_symmetry(ctx, name, colp, msrc):
                 if len(eg) == 1 and len(pc) == 1 and len(sq_) == 1:
                     found = (rest, eg[0], pc[0], sq_[0], tied(sq_[0]))
                     break
+                # bit-scan form: the square is tz(R) of a loop-carried bitboard R that starts as the located squares and loses its lowest
+                # set bit per iteration (every set bit is visited exactly once)
+                bs = bitscan_loop(o)
+                if bs is not None:
+                    sq_ = [x for x in others if any(s_ in (bs['R'], bs['R0']) for s_ in subterms(x)) and any(s_[0] == 'call' and s_[1] == 'trailing_zeros' for s_ in subterms(x))]
+                    eg = [x for x in others if x not in sq_]
+                    src_ok = any(s_[0] == 'call' and s_[1].endswith('PieceSet::locate') for s_ in subterms(bs['init']))
+                    if len(eg) == 1 and len(pc) == 1 and len(sq_) == 1 and src_ok:
+                        found = (rest, eg[0], pc[0], sq_[0], ('bitscan', bs))
+                        break
             if found:
                 break
         if not found:
@@ -356,7 +366,11 @@ def r2_summand_symmetry(ctx, name, colp, msrc):
         detail[col] = [show(x)[:120] for x in rest]
         # guard: counted iff bit `square` of the located bitboard is set (decided on all 64 x 64 (square, single-bit board) pairs)
         okg = len(guard) >= 1
-        if okg:
+        if okg and guard[0] == 'bitscan':
+            # the scan visits exactly the set bits of locate(piece) of this colour's piece set
+            okg = True
+            guard = [(guard[1]['init'], 'bit-scan of')]
+        elif okg:
             a, v = guard[0]
             loc = [s_ for s_ in subterms(a) if s_[0] == 'call' and s_[1].endswith('PieceSet::locate')][0]
             try:
